@@ -39,6 +39,10 @@ func (m *Model) UpdateMetadata(metadata *traits.Metadata, opts ...resource.Write
 // Traits that exist in the given metadata are merged with existing traits, so that each trait appears only once and
 // the 'more' maps are merged.
 func (m *Model) MergeMetadata(metadata *traits.Metadata, opts ...resource.WriteOption) (*traits.Metadata, error) {
+	if metadata != nil {
+		// the merge interceptor works on the message being written, in place: that is a copy, not the caller's
+		metadata = proto.Clone(metadata).(*traits.Metadata)
+	}
 	newOpts := make([]resource.WriteOption, 1, len(opts)+1)
 	newOpts[0] = resource.InterceptBefore(metadataMergeInterceptor)
 	newOpts = append(newOpts, opts...)
